@@ -14,6 +14,16 @@ pub open spec fn sym_at<S: Symbol>(s: Seq<S>, p: int) -> S {
     if 0 <= p < s.len() { s[p] } else { wild::<S>() }
 }
 
+/// positions of the linear sequence holding `sym`  ("counting its symbols")
+pub open spec fn occ_pred<S: Symbol>(s: Seq<S>, pred: spec_fn(S) -> bool) -> Set<int> {
+    Set::<int>::range(0, s.len() as int).filter(|p: int| pred(s[p]))
+}
+pub open spec fn is_sym<S: Symbol>(sym: S) -> spec_fn(S) -> bool { |x: S| x == sym }
+pub open spec fn has_idx<S: Symbol>(k: int) -> spec_fn(S) -> bool { |x: S| x.idx() == k }
+pub open spec fn occ<S: Symbol>(s: Seq<S>, sym: S) -> Set<int> { occ_pred(s, is_sym(sym)) }
+/// positions of the linear sequence whose symbol has index k
+pub open spec fn occ_idx<S: Symbol>(s: Seq<S>, k: int) -> Set<int> { occ_pred(s, has_idx::<S>(k)) }
+
 pub struct StripedSequence<A: Alphabet, C: Unsigned> {
     pub alphabet: core::marker::PhantomData<A>,
     pub length: usize,
@@ -24,6 +34,26 @@ pub struct StripedSequence<A: Alphabet, C: Unsigned> {
 impl<A: Alphabet, C: PositiveLength> StripedSequence<A, C> {
     /// number of sequence rows (rows of the matrix that are not look-ahead rows)
     pub open spec fn seq_rows(&self) -> int { self.data@.len() - self.wrap }
+
+    /// geometry invariant: the sequence rows can hold `length` symbols
+    pub open spec fn geom_ok(&self) -> bool {
+        &&& self.data.wf()
+        &&& self.wrap <= self.data@.len()
+        &&& self.length <= self.seq_rows() * C::USIZE
+        &&& self.seq_rows() * C::USIZE <= usize::MAX
+    }
+
+    /// abstraction function: the linear sequence a striped matrix stands for
+    /// ("symbol i sits at row i mod R, column i div R")
+    pub open spec fn linear(&self) -> Seq<A::Symbol> {
+        Seq::new(self.length as nat, |p: int| self.data@[p % self.seq_rows()][p / self.seq_rows()])
+    }
+
+    /// positions holding `sym` among those the row-major counting loop has visited before cell (i, j)
+    pub open spec fn visited(&self, pred: spec_fn(A::Symbol) -> bool, i: int, j: int) -> Set<int> {
+        Set::<int>::range(0, self.length as int).filter(|p: int| pred(self.linear()[p])
+            && (p % self.seq_rows() < i || (p % self.seq_rows() == i && p / self.seq_rows() < j)))
+    }
 
     /// the matrix is the striping of the linear sequence `s`
     pub open spec fn stripe_ok(&self, s: Seq<A::Symbol>) -> bool {
